@@ -110,12 +110,15 @@ def var_positions(e, ctx, path=(), funs=None, memo=None, dropped=False):
         body_names = {get_name(e[3], p) for p, c, dd in var_positions(e[3], "x", (), funs, memo) if not dd and not c.startswith("CALL:")}
         for i, (n, x) in enumerate(e[2]):
             d = dropped
-            if e[1] == "assign-inline":
+            if True:
+                # a binding nobody uses: assign-inline substitutes it away ("always"), and the optimising builds fold a let
+                # whose body does not depend on it ("opt") - the class of D23; nothing is claimed for such positions
                 others = set()
                 for j, (n2, x2) in enumerate(e[2]):
                     if j != i:
                         others |= srcgen.expr_vars(x2)
-                d = dropped or (n not in body_names and n not in others)
+                if not dropped and (n not in body_names and n not in others):
+                    d = True      # lets desugar to inline functions (cl21/22) or are folded (cl23+): the binding is discarded
             yield from var_positions(x, e[1] + "_binding", path + (2, i, 1), funs, memo, d)
         yield from var_positions(e[3], e[1] + "_body", path + (3,), funs, memo, dropped)
     elif k == "lambda":
@@ -173,7 +176,7 @@ def inject_unbound(prog, rng):
             q["body"] = nb
         else:
             q["funs"][fi]["body"] = nb
-        out.append((c, q, None, "dropped" if dr else None))
+        out.append((c, q, None, ("dropped_opt" if dr == "opt" else "dropped") if dr else None))
     # macro template (only when the macro is used by reachable code)
     used_macros = set()
     for b in [prog["body"]] + [f["body"] for f in prog["funs"] if f["name"] in reach]:
@@ -556,7 +559,7 @@ def run(ck):
     accepted_cycles = []
     for (ri, kind, c, d, opt, src, ns, tag, q), rr in zip(meta, res):
         x = {"defect": kind, "where": c, "dialect": d, "optimize": opt, "source": src, "twin_compiles": True, "result": (rr or "")[:300]}
-        if (rr is None or rr.startswith(("TIMEOUT", "ABORT"))) and tag == "const_recursion" and d in ("cl23", "cl23.1", "cl24") and "c10.const_recursion_diverges" in kf:
+        if (rr is None or rr.startswith(("TIMEOUT", "ABORT"))) and kind == "inline_cycle" and d in ("cl23", "cl23.1", "cl24") and "c10.const_recursion_diverges" in kf:
             ck.known_finding(kf["c10.const_recursion_diverges"])
             continue
         if rr is None or rr.startswith(("TIMEOUT", "ABORT", "PANIC")):
@@ -564,6 +567,8 @@ def run(ck):
             continue
         if rr.startswith("OK "):
             cls = {"dropped": "c10.dropped", "defmacro_template": "c10.defmacro_template", "unreachable_dup": "c10.unreachable_dup"}.get(tag)
+            if tag == "dropped_opt" and (opt or d in ("cl23", "cl23.1", "cl24")):
+                cls = "c10.dropped"
             if kind == "inline_cycle" and d in ("cl23", "cl23.1", "cl24") and "c10.cl23_recursive_inline" in kf:
                 accepted_cycles.append((ri, c, d, opt, src, ns, q, rr[3:].split("\t")[0], x))
                 continue
@@ -583,7 +588,10 @@ def run(ck):
                 if kind == "inline_cycle" and d == "cl22" and "stack limit exceeded" in msg and "c10.cl22_stack_limit" in kf:
                     ck.known_finding(kf["c10.cl22_stack_limit"])
                     continue
-                if tag in ("dropped", "unreachable_dup"):
+                if kind == "duplicate_function" and d == "cl22" and "Don't yet support this call type" in msg and "c10.cl22_stack_limit" in kf:
+                    ck.known_finding(kf["c10.cl22_stack_limit"])
+                    continue
+                if tag in ("dropped", "dropped_opt", "unreachable_dup"):
                     continue        # some other error stopped the compilation; nothing is claimed for a discarded expression
                 direct.append({"clause": "the error does not name the offending identifier", "expected_one_of": ns[:6], **x})
         else:
